@@ -12,6 +12,7 @@ func init() {
 			{Name: "run-fragmenting-histories", Quick: 1500, Thorough: 80000, Run: c14RunHist},
 			{Name: "dense-low-keys-small-chunks", Quick: 1500, Thorough: 80000, Run: c14DenseLowKeys},
 			{Name: "andany-then-removals", Quick: 1500, Thorough: 60000, Run: c11AndAnyScratch},
+			{Name: "threshold-cardinality-targets", Quick: 1500, Thorough: 60000, Run: func(c *Ctx) { thresholdTargets(c, true) }},
 		},
 	})
 }
